@@ -140,6 +140,8 @@ def atoms_of(test, pol, norm_fn=None):
         return out
     if isinstance(test, ast.UnaryOp) and isinstance(test.op, ast.Not):
         return atoms_of(test.operand, not pol, nf)
+    if isinstance(test, ast.Call) and isinstance(test.func, ast.Name) and test.func.id == "bool" and len(test.args) == 1 and not test.keywords:
+        return atoms_of(test.args[0], pol, nf)          # bool(x) is true exactly when x is
     if isinstance(test, ast.IfExp):
         # a conditional expression with a constant arm is a conjunction / disjunction: `False if c else y` is `not c and y`
         for const_arm, other, c_pol in ((test.body, test.orelse, False), (test.orelse, test.body, True)):
